@@ -339,16 +339,40 @@ theorem d53_repair_witness :
     openDB (loadFromSavepoint .byId (wipe (createArtifactS .byId .writeRead d53FS (jobURI 1) d53Snap d53Sched).1) 1).1
         ⟨"op0", 1, ⟨"op0/", "checkpoints"⟩⟩ = openDB d53FS ⟨"op0", 1, ⟨"op0/", "checkpoints"⟩⟩ := by decide
 
+/-- **creation_succeeds_partial** (D65, open): a requested savepoint comes into existence — the non-atomic creation
+reports success whenever the atomic one would — PROVIDED the environment leaves the handled files alone while it runs.
+Excluded in particular: the next publication's cleanup removing the job snapshot `job-N.snapshot`, which the creation
+copies LAST (`savepoint_lost_to_cleanup_counterexample`). -/
+theorem creation_succeeds_partial (m : DocMode) (fs : FS) (jobURI : URI) (snap : JobSnap) (sch : Sched)
+    (hquiet : ∀ e ∈ sch, ∀ x ∈ e, ¬ Handled fs jobURI snap x.uri)
+    (hat : (createArtifact .byId fs jobURI snap).2 = true) :
+    (createArtifactS .byId m fs jobURI snap sch).2 = true := by
+  obtain ⟨hok, _⟩ := createArtifactS_sim .byId m (Handled fs jobURI snap) fs jobURI snap sch hquiet
+    (Or.inl rfl) (fun o ho => Or.inr ⟨o, ho, Or.inl rfl⟩)
+    (fun o ho files hf u hu => Or.inr ⟨o, ho, Or.inr ⟨files, hf, hu⟩⟩)
+  rw [hok]; exact hat
+
+/-- storage calls: read document, copy 0.wal, write document, copy job snapshot — the next checkpoint is published
+meanwhile and its cleanup removes `job-1.snapshot` just before the last copy -/
+def d65Sched : Sched := [[], [], [], [.del (jobURI 1)]]
+
+/-- **savepoint_lost_to_cleanup_counterexample** (D65): everything of savepoint 1 is copied, then the copy of the job
+snapshot fails: no savepoint exists although the atomic creation on the same storage succeeds. -/
+theorem savepoint_lost_to_cleanup_counterexample :
+    (createArtifact .byId d53FS (jobURI 1) d53Snap).2 = true ∧
+    (createArtifactS .byId .writeRead d53FS (jobURI 1) d53Snap d65Sched).2 = false ∧
+    read (createArtifactS .byId .writeRead d53FS (jobURI 1) d53Snap d65Sched).1 (.spJob 1) = none := by decide
+
 /-- **restart_ids_fresh** (D49 repaired): a job started from a savepoint never hands out a checkpoint id again that
 is the savepoint's or that of a job snapshot file still in its file store (checkpoints written after the savepoint
 by the run that is being rolled back). The first id it hands out — for a checkpoint or a savepoint — is above all
 of them, so its publication does not rewrite any existing job snapshot file (in particular not the one a later
-savepoint's `job.savepoint` was copied from). -/
-theorem restart_ids_fresh (L : Lister) (fs fs' : FS) (sid : Nat) (s : JobSnap) (st : Store)
-    (h : startStore L fs sid = (fs', some (s, st))) (n : Nat) :
+savepoint's `job.savepoint` was copied from). Whether or not existing savepoints are counted. -/
+theorem restart_ids_fresh (cs : Bool) (L : Lister) (fs fs' : FS) (sid : Nat) (s : JobSnap) (st : Store)
+    (h : startStoreWith cs L fs sid = (fs', some (s, st))) (n : Nat) :
     ∃ k, (createCheckpoint st n).2 = .ckpt k ∧ (createSavepoint st n).2 = .sp k true ∧ s.id < k ∧
       (∀ id c, read fs' (.work (jobURI id)) = some c → id < k) ∧ read fs' (.work (jobURI k)) = none := by
-  unfold startStore at h
+  unfold startStoreWith at h
   cases hl : loadFromSavepoint L fs sid with
   | mk w r =>
     rw [hl] at h
@@ -358,16 +382,64 @@ theorem restart_ids_fresh (L : Lister) (fs fs' : FS) (sid : Nat) (s : JobSnap) (
       simp only [Prod.mk.injEq, Option.some.injEq] at h
       obtain ⟨hw, hs, hst⟩ := h
       subst hw hs hst
-      have hfresh : ∀ id c, read w (.work (jobURI id)) = some c → id < max s'.id (newestLocalId w) + 1 := by
+      have hfresh : ∀ id c, read w (.work (jobURI id)) = some c → id < startCounter cs w s' + 1 := by
         intro id c hc
-        have := le_newestLocalId id w c hc
-        have := Nat.le_max_right s'.id (newestLocalId w)
+        have h1 := le_newestLocalId id w c hc
+        unfold startCounter
+        have h2 := Nat.le_max_right s'.id (max (newestLocalId w) (if cs then newestSavepointId w else 0))
+        have h3 := Nat.le_max_left (newestLocalId w) (if cs then newestSavepointId w else 0)
         omega
-      refine ⟨max s'.id (newestLocalId w) + 1, by simp [createCheckpoint], by simp [createSavepoint], ?_, hfresh, ?_⟩
-      · have := Nat.le_max_left s'.id (newestLocalId w); omega
-      · cases hr : read w (.work (jobURI (max s'.id (newestLocalId w) + 1))) with
+      refine ⟨startCounter cs w s' + 1, by simp [createCheckpoint], by simp [createSavepoint], ?_, hfresh, ?_⟩
+      · unfold startCounter
+        have := Nat.le_max_left s'.id (max (newestLocalId w) (if cs then newestSavepointId w else 0)); omega
+      · cases hr : read w (.work (jobURI (startCounter cs w s' + 1))) with
         | none => rfl
         | some c => have := hfresh _ c hr; omega
+
+/-- **restart_never_recreates_a_savepoint** (the proposed repair: existing savepoints counted): the first id a job
+started from a savepoint hands out is above the id of every savepoint that exists in its file store; no savepoint
+directory named by that id exists yet. (FULL statement; for the code as it is — existing savepoints not counted — it is
+false: `savepoint_id_reuse_counterexample`.) -/
+theorem restart_never_recreates_a_savepoint (L : Lister) (fs fs' : FS) (sid : Nat) (s : JobSnap) (st : Store)
+    (h : startStoreWith true L fs sid = (fs', some (s, st))) (n : Nat) :
+    ∃ k, (createSavepoint st n).2 = .sp k true ∧
+      (∀ id c, read fs' (.spJob id) = some c → id < k) ∧ read fs' (.spJob k) = none := by
+  unfold startStoreWith at h
+  cases hl : loadFromSavepoint L fs sid with
+  | mk w r =>
+    rw [hl] at h
+    cases r with
+    | none => simp at h
+    | some s' =>
+      simp only [Prod.mk.injEq, Option.some.injEq] at h
+      obtain ⟨hw, hs, hst⟩ := h
+      subst hw hs hst
+      have hfresh : ∀ id c, read w (.spJob id) = some c → id < startCounter true w s' + 1 := by
+        intro id c hc
+        have h1 := le_newestSavepointId id w c hc
+        unfold startCounter
+        have h2 := Nat.le_max_right s'.id (max (newestLocalId w) (if true = true then newestSavepointId w else 0))
+        have h3 := Nat.le_max_right (newestLocalId w) (if true = true then newestSavepointId w else 0)
+        simp only [if_true] at h2 h3 ⊢
+        omega
+      refine ⟨startCounter true w s' + 1, by simp [createSavepoint], hfresh, ?_⟩
+      cases hr : read w (.spJob (startCounter true w s' + 1)) with
+      | none => rfl
+      | some c => have := hfresh _ c hr; omega
+
+/-- savepoints 1 and 2 of an earlier run exist; all working storage is gone -/
+def reuseFS : FS :=
+  [ (.spJob 1, .job ⟨1, [], "run-A@1"⟩), (.spJob 2, .job ⟨2, [], "run-A@2"⟩) ]
+
+/-- **savepoint_id_reuse_counterexample** (the code as it is: existing savepoints are not counted): the job rolled
+back to savepoint 1 gives its next savepoint the id 2, and publishing it replaces the `job.savepoint` the URI of the
+earlier savepoint 2 names: that URI now restores another run's state. With the savepoints counted the id is 3. -/
+theorem savepoint_id_reuse_counterexample :
+    (∃ st, (startStoreWith false .byId reuseFS 1).2 = some (⟨1, [], "run-A@1"⟩, st) ∧ (createSavepoint st 0).2 = .sp 2 true) ∧
+    read (publish .byId reuseFS (jobURI 2) (⟨2, [], "run-B@2"⟩, true)).1 (.spJob 2) = some (.job ⟨2, [], "run-B@2"⟩) ∧
+    read reuseFS (.spJob 2) = some (.job ⟨2, [], "run-A@2"⟩) ∧
+    (∃ st, (startStoreWith true .byId reuseFS 1).2 = some (⟨1, [], "run-A@1"⟩, st) ∧ (createSavepoint st 0).2 = .sp 3 true) := by
+  refine ⟨⟨_, rfl, by decide⟩, by decide, by decide, ⟨_, rfl, by decide⟩⟩
 
 /-- **artPath_injective**: the place of a file inside a savepoint directory is computed from the file's own
 directory AND base name, so two different files of the same savepoint never share a place — in particular not two
